@@ -226,7 +226,7 @@ fn main() {
                 source: src, path, modules, answers, driver,
                 gc: host::GcSched { force_at_suspend: true, ..host::GcSched::threshold(thr) },
                 tape: rng::Tape::from_vec(vec![]), fuel: 3_000_000, clock_start: 0, random_seed: 1, withhold_imports: false, linked_promises: false,
-                host_activity_pm: 0, internal_sources: Default::default(), stale_answer_ids: Vec::new(),
+                host_activity_pm: 0, internal_sources: Default::default(), stale_answer_ids: Vec::new(), stub_then_real: false,
             };
             let out = host::run_solo(&spec);
             println!("result: {}", out.result);
@@ -305,7 +305,7 @@ fn main() {
                 let mk = |gc: host::GcSched| host::RunSpec {
                     source: src.clone(), path: None, modules: Default::default(), answers: Default::default(), driver: host::Driver::Step, gc,
                     tape: rng::Tape::from_vec(vec![]), fuel: 3_000_000, clock_start: 0, random_seed: 1, withhold_imports: false, linked_promises: false,
-                    host_activity_pm: 0, internal_sources: Default::default(), stale_answer_ids: Vec::new(),
+                    host_activity_pm: 0, internal_sources: Default::default(), stale_answer_ids: Vec::new(), stub_then_real: false,
                 };
                 let base = host::run_solo(&mk(host::GcSched::off()));
                 let gc = host::run_solo(&mk(host::GcSched::threshold(1)));
